@@ -79,6 +79,17 @@ CHECKS.update({
         engine="E4-scenarios + E3-trace", ref="DESIGN.md 6 C15"),
 })
 
+CHECKS.update({
+    "C02": dict(
+        text="Request-id middleware, runtime automaton, reply-stream checks (SendBody) and the addressing of platform-generated errors are modelled in spec/Rapid.tla. Scenarios enumerate histories {ok, error, timeout, crash} x placement of a stale / duplicate / unknown response or error {before the next invocation arrives, before the runtime polls, after delivery, after the response, after completion} x submission kind; TLC validates each trace: the submission is refused with 400/403, the caller of the following invocation receives exactly the body posted for its own id, the automaton continues as if the refused call had not happened.",
+        note=SCEN_NOTE, technique="TLA+ spec + TLC trace validation of recorded full-stack traces (placement enumeration)",
+        engine="E4-scenarios + E3-trace", ref="DESIGN.md 6 C02"),
+    "C07": dict(
+        text="Seeded random programs of the runtime, up to two external and one internal extension over the whole Runtime/Extensions API alphabet including misuse, stalls and exits (code 0, non-zero, signals) at any point, over one to three faulty generations, followed by a flushing and a healthy invocation, are executed on the real stack (child processes: a crash of the emulator is observed directly). TLC validates every trace against the full composite spec/Rapid.tla: one outcome per invocation within the time bound (an invocation without outcome is an unexplainable event), bodies are posted bodies or platform errors, the healthy invocation is served.",
+        note=SCEN_NOTE + " The random programs are samples of the behaviour space, not an enumeration.", technique="TLA+ spec + TLC trace validation of randomized full-stack programs; crash containment in child processes",
+        engine="E4-scenarios + E3-trace", ref="DESIGN.md 6 C07"),
+})
+
 NA = {
 }
 
